@@ -28,6 +28,7 @@ CONSTANTS
   HPanicMethods = {}"""
 
 SYMBOLIC = ("ln", "ru", "rh", "ip", "tid")
+CHUNK = 3000
 
 
 def case_to_plan(i, case):
@@ -77,21 +78,35 @@ def key_of(rec):
 
 def judge(prop, verdict, traces, label):
     """TLC validates the recorded traces; rejected steps are violations of prop."""
-    twd = vlib.workdir(prop, "tv_%s" % label)
     ts = [list(t) for t in traces]
-    if prop == "C01" and ts:
-        ts[-1].append({"ev": "step", "tid": "stat", "e": {"op": "stat"}})
     fml = "T" + prop
-    rejected, st = vlib.validate_traces(prop, twd, "TraceGensign.tla", TRACE_CFG, [fml], ts)
-    for (ti, li) in rejected[fml]:
-        rec = ts[ti][li]
-        if rec["e"]["op"] == "run":
-            payload = ts[ti]
-        else:   # the batch statistics: replayed by recording a fresh batch with the same seed
-            payload = [{"ev": "reset", "tid": "stat", "post": {"ag": []}, "info": {"stat": True, "nrand": 64, "seed": vlib.seed()}}]
-        rp = vlib.save_replay(prop, "%s_%s.ndjson" % (label, payload[0]["tid"]), payload) if len(verdict.violations) < 25 else "(not saved)"
-        verdict.violation(key_of(rec), "run %d of case %s is rejected by %s_Run: %s" %
-                          (li, ts[ti][0]["tid"], prop, json.dumps({"sc": rec["e"].get("sc"), "r": rec["e"].get("r")})[:1500]), rp)
+    # one TLC run per chunk of <= CHUNK runs (the accumulated challenge / key histories make a run quadratic in its length)
+    chunks, cur, n = [], [], 0
+    for t in ts:
+        cur.append(t)
+        n += len(t) - 1
+        if n >= CHUNK:
+            chunks.append(cur)
+            cur, n = [], 0
+    if cur:
+        chunks.append(cur)
+    st = {"wall": 0.0, "events": 0}
+    for ci, chunk in enumerate(chunks):
+        if prop == "C01":
+            chunk[-1] = chunk[-1] + [{"ev": "step", "tid": "stat", "e": {"op": "stat"}}]
+        twd = vlib.workdir(prop, "tv_%s_%d" % (label, ci))
+        rejected, st1 = vlib.validate_traces(prop, twd, "TraceGensign.tla", TRACE_CFG, [fml], chunk)
+        st["wall"] += st1["wall"]
+        st["events"] += st1["events"]
+        for (ti, li) in rejected[fml]:
+            rec = chunk[ti][li]
+            if rec["e"]["op"] == "run":
+                payload = chunk[ti]
+            else:   # the batch statistics: replayed by recording a fresh batch with the same seed
+                payload = [{"ev": "reset", "tid": "stat", "post": {"ag": []}, "info": {"stat": True, "nrand": 64, "seed": vlib.seed()}}]
+            rp = vlib.save_replay(prop, "%s_%s.ndjson" % (label, payload[0]["tid"]), payload) if len(verdict.violations) < 25 else "(not saved)"
+            verdict.violation(key_of(rec), "run %d of case %s is rejected by %s_Run: %s" %
+                              (li, chunk[ti][0]["tid"], prop, json.dumps({"sc": rec["e"].get("sc"), "r": rec["e"].get("r")})[:1500]), rp)
     return sum(len(t) - 1 for t in traces), st
 
 
